@@ -382,7 +382,7 @@ def fn_defaults_ErrorHandler_Wrap : String := "func(handler func(w http.Response
 def fn_defaults_Router_ServeHTTP : String := "func(w http.ResponseWriter, req *http.Request) { var router http.Handler switch req.Method { case \"GET\": router = r.gets case \"POST\": router = r.posts case \"DELETE\": router = r.deletes default: w.WriteHeader(http.StatusMethodNotAllowed) io.WriteString(w, \"method not allowed\") return } router.ServeHTTP(w, req) }"
 def fn_defaults_JSONRenderer_Render : String := "func(ctx context.Context, page string, data authboss.HTMLData) (output []byte, contentType string, err error) { if data == nil { return []byte(`{\"status\":\"success\"}`), \"application/json\", nil } if _, hasStatus := data[\"status\"]; !hasStatus { failures := j.Failures if len(failures) == 0 { failures = jsonDefaultFailures } status := \"success\" for _, failure := range failures { val, has := data[failure] if has && val != nil { status = \"failure\" break } } data[\"status\"] = status } b, err := json.Marshal(data) if err != nil { return nil, \"\", err } return b, \"application/json\", nil }"
 def fn_defaults_SMTPMailer_Send : String := "func(ctx context.Context, mail authboss.Email) error { if len(mail.TextBody) == 0 && len(mail.HTMLBody) == 0 { return errors.New(\"refusing to send mail without text or html body\") } buf := &bytes.Buffer{} data := struct { Boundary string Mail authboss.Email }{ Boundary: s.boundary(), Mail: mail, } err := emailTmpl.Execute(buf, data) if err != nil { return err } toSend := bytes.Replace(buf.Bytes(), []byte{'\\n'}, []byte{'\\r', '\\n'}, -1) return smtp.SendMail(s.Server, s.Auth, mail.From, mail.To, toSend) }"
-def fn_defaults_SMTPMailer_boundary : String := "func() string { const alphabet = \"abcdefghijklmnopqrstuvwxyz0123456789\" buf := &bytes.Buffer{} for i := 0; i < 23; i++ { buf.WriteByte(alphabet[s.rand.Int()%len(alphabet)]) } return buf.String() }"
+def fn_defaults_SMTPMailer_boundary : String := "func() string { const alphabet = \"abcdefghijklmnopqrstuvwxyz0123456789\" buf := &bytes.Buffer{} randMu.Lock() defer randMu.Unlock() for i := 0; i < 23; i++ { buf.WriteByte(alphabet[s.rand.Int()%len(alphabet)]) } return buf.String() }"
 def fn_defaults_NewSMTPMailer : String := "func(server string, auth smtp.Auth) *SMTPMailer { if len(server) == 0 { panic(\"SMTP Mailer must be created with a server string.\") } random := rand.New(rand.NewSource(time.Now().UnixNano())) return &SMTPMailer{server, auth, random} }"
 def fn_defaults_LogMailer_Send : String := "func(ctx context.Context, mail authboss.Email) error { buf := &bytes.Buffer{} data := struct { Boundary string Mail authboss.Email }{ Boundary: \"284fad24nao8f4na284f2n4\", Mail: mail, } err := emailTmpl.Execute(buf, data) if err != nil { return err } toSend := bytes.Replace(buf.Bytes(), []byte{'\\n'}, []byte{'\\r', '\\n'}, -1) _, err = l.Write(toSend) return err }"
 def fn_defaults_Logger_Info : String := "func(s string) { fmt.Fprintf(l.Writer, \"%s [INFO]: %s\\n\", time.Now().UTC().Format(time.RFC3339), s) }"
@@ -645,6 +645,7 @@ def consts_defaults : List (String × String) := [
 def pkgVars_defaults : List (String × String) := [
   ("defaults.jsonDefaultFailures", "[]string{authboss.DataErr, authboss.DataValidation}"),
   ("defaults.blankRegex", "regexp.MustCompile(`^\\s*$`)"),
+  ("defaults.randMu", ":sync.Mutex"),
   ("defaults.emailTmpl", "template.Must(template.New(\"email\").Funcs(template.FuncMap{ \"join\": strings.Join, \"namedAddress\": namedAddress, \"namedAddresses\": namedAddresses, }).Parse(`To: {{namedAddresses .Mail.ToNames .Mail.To}}{{if .Mail.Cc}} Cc: {{namedAddresses .Mail.CcNames .Mail.Cc}}{{end}}{{if .Mail.Bcc}} Bcc: {{namedAddresses .Mail.BccNames .Mail.Bcc}}{{end}} From: {{namedAddress .Mail.FromName .Mail.From}} Subject: {{.Mail.Subject}}{{if .Mail.ReplyTo}} Reply-To: {{namedAddress .Mail.ReplyToName .Mail.ReplyTo}}{{end}} MIME-Version: 1.0 Content-Type: multipart/alternative; boundary=\"==============={{.Boundary}}==\" Content-Transfer-Encoding: 7bit {{if .Mail.TextBody -}} --==============={{.Boundary}}== Content-Type: text/plain; charset=UTF-8 Content-Transfer-Encoding: 7bit {{.Mail.TextBody}} {{end -}} {{if .Mail.HTMLBody -}} --==============={{.Boundary}}== Content-Type: text/html; charset=UTF-8 Content-Transfer-Encoding: 7bit {{.Mail.HTMLBody}} {{end -}} --==============={{.Boundary}}==-- `))")
 ]
 
